@@ -42,6 +42,8 @@ def cases(seed, tier):
         args = KG.kill_args(rng, plugin, pats, dry=rng.random() < 0.1)
         if rng.random() < 0.15:
             args["kernelkill"] = "true"
+            if rng.random() < 0.5:
+                KG.kernelkill_inner_nodes(rng, cgs, info, args)
         allpids = [p for r in info for p in info[r]["pids"]]
         kill = {"default": "ok", "pids": {}}
         m = rng.random()
